@@ -99,6 +99,8 @@ def path_atoms(p, b, rep, rule):
         if name is None:
             raise CannotTabulate('condition %s is not modelled' % show(noepoch(v))[:160])
         val = c[1] if c[0] == 'eq' else ('not', c[1])
+        if name.startswith('ne(') and isinstance(val, bool):
+            name, val = 'eq(' + name[3:], not val
         if name in out and out[name] != val:
             raise CannotTabulate('contradictory assumptions on %s' % name)
         out[name] = val
@@ -165,9 +167,9 @@ def oracle(at):
             return (0, [], {})
         divs = []
         for k in ('1', '2'):
-            a = T('ne(se%s.point,inter)' % k)
-            b = T('ne(other%s.point,inter)' % k)
-            if a and b:
+            a = T('eq(se%s.point,inter)' % k)
+            b = T('eq(other%s.point,inter)' % k)
+            if a is False and b is False:
                 divs.append(('se' + k, 'inter'))
         return (1, divs, {})
     if kind == 2:
@@ -284,7 +286,7 @@ def check_endpoint_guards(ctx, rep, rule='G-endpoint'):
         for (who, pt, line) in c.divs:
             n += 1
             k = who[-1]
-            guarded = at.get('ne(se%s.point,inter)' % k) is True and at.get('ne(other%s.point,inter)' % k) is True
+            guarded = at.get('eq(se%s.point,inter)' % k) is False and at.get('eq(other%s.point,inter)' % k) is False
             rep.ob(rule, 'divide(%s)@%s' % (who, case_key({x: y for x, y in at.items() if 'inter' in x and x != 'inter_kind'})),
                    guarded and pt == 'inter' and who in ('se1', 'se2'),
                    'divide_segment(%s, %s) is reached without both se%s.point != inter and other%s.point != inter '
